@@ -76,7 +76,7 @@ def scripts(cfg, inputs, early, scale, sig):
     if fin:
         roles = inputs[fin - 1][1]
         n = len(roles)
-        fails = [s for s in range(1, n + 1) if cfg["ends"][s - 1] != "exit0"]
+        fails = [s for s in range(1, n + 1) if cfg["ends"][s - 1] not in ("exit0", "exit0_nodrain")]
         rank = {}
         base = 2 if early else 1
         for j, s in enumerate(fails):
@@ -99,6 +99,8 @@ def scripts(cfg, inputs, early, scale, sig):
                 beh[key] = "open\nsleep %d\ndrain\nwrite %d\nexit 1\n" % (rank[s] * scale, w)
             elif end == "signal":
                 beh[key] = "open\nsleep %d\nsig %d\n" % (rank[s] * scale, sig)
+            elif end == "exit0_nodrain":
+                beh[key] = "sleep %d\nexit 0\n" % scale
             elif end == "spawn_fails":
                 role = roles[s - 1]
                 users = [(k, st) for (k, st), v in idx.items() if v.split(".")[0] == role and k < fin]
@@ -173,7 +175,7 @@ class FlowA:
         beh = {k: re.sub(r"@(\w+)@", lambda mm: ("cproc-qbe" if mm.group(1) == "cc" else self.b.tool[mm.group(1)]), v)
                for k, v in beh.items()}
         files = {n: "[%s]" % n for n, _ in inputs}
-        return dict(triple=TRIPLE, files=files, argv=argv, beh=beh, missing=tuple(missing), timeout=5.0,
+        return dict(triple=TRIPLE, files=files, argv=argv, beh=beh, missing=tuple(missing), timeout=3.5,
                     tag=tag, stdin=b""), inputs
 
     def judge(self, g, inputs, obs):
@@ -228,7 +230,8 @@ class FlowA:
             self.nrun += 1
             cfg = g["cfg"]
             ctx.count(vlib.canon([cfg, early, sig]), nontrivial=bool(cfg["fin"]) or cfg["lend"] != "exit0")
-            case = {"cfg": cfg, "finished_before_failure": list(early), "delay_scale_ms": scale, "signal": sig,
+            case = {"cfg": cfg, "finished_before_failure": list(early), "delay_scale_ms": scale, "signal": sig, "variant": variant,
+                    "model_outcomes": sorted(g["outcomes"]), "required_outcomes": sorted(g["required"]),
                     "argv": tasks[obs["tag"]]["argv"] if verdict != "bad" else None, "detail": detail,
                     "stderr": obs["stderr"][-400:]}
             if verdict == "known":
@@ -273,6 +276,10 @@ def _calls(path):
             eq = rest.rfind(" = ")
             ret = rest[eq + 3:].strip() if eq >= 0 else "?"
             yield pid, name, rest[len(name):eq if eq >= 0 else None], ret
+    # calls that never returned: an execve cut short by SIGKILL is an exec that was succeeding (a failing one returns)
+    for pid, rest in pending.items():
+        name = rest.split("(", 1)[0]
+        yield pid, name, rest[len(name):], "?"
 
 
 def role_of(path):
@@ -293,7 +300,7 @@ def trace_events(path, inputs):
     for pid, name, args, ret in calls:
         if name == "execve":
             p = args.split('"')[1] if '"' in args else ""
-            execs.setdefault(pid, []).append((p, ret.startswith("0")))
+            execs.setdefault(pid, []).append((p, ret.startswith("0") or ret == "?"))
             if driver is None and p.endswith("/bin/cproc") and ret.startswith("0"):
                 driver = pid
     if driver is None:
@@ -368,7 +375,7 @@ def trace_events(path, inputs):
                 ev.append({"e": "Wait", "stage": stage_of.get(child, 0), "status": status})
         elif name == "kill":
             target = int(args.strip("(").split(",")[0])
-            if not ("SIGTERM" in args):
+            if not any(x in args for x in ("SIGTERM", "SIGKILL", "SIGINT", "SIGHUP", "SIGQUIT")):   # any terminating signal
                 ev.append({"e": "Kill", "stages": [-1]})
             elif ev and ev[-1]["e"] == "Kill":
                 ev[-1]["stages"].append(stage_of.get(target, 0))
@@ -468,6 +475,24 @@ class FlowB:
         return accepted
 
 
+def observation_nodrain(ctx, fa):
+    """Outside C18's antecedent (no tool fails): a stage that exits 0 WITHOUT draining its input while the upstream
+    stage still writes.  The driver keeps every pipe read end open, so the writer never gets SIGPIPE/EPIPE, blocks on
+    the full pipe, and the driver waits forever.  TLC finds the schedule (liveness violated with KeepReadEnds = TRUE,
+    satisfied with FALSE); the real driver is run once to confirm.  Recorded as an observation, never as a violation."""
+    r = ctx.tlc("DriverProc", "MC_DriverProc_nodrain.cfg", workers=2, timeout=600)
+    if r.rc != 13:
+        raise vlib.MachineryError("MC_DriverProc_nodrain.cfg: expected a liveness counterexample (rc 13), got rc=%s" % r.rc)
+    ctx.tlc_must_pass("DriverProc", "MC_DriverProc_nodrain_closed.cfg", workers=2, timeout=600)
+    cfg = {"ni": 1, "nst": [2, 1], "mode": "stdout", "fin": 1, "ends": ["exit0", "exit0_nodrain", "exit0"], "big": 1, "lend": "exit0"}
+    t, _inputs = fa.make_task({"cfg": cfg}, (1,), 40, 11, 0, 0)
+    t["timeout"] = 3.0
+    obs = list(fa.pool.map([t], chunksize=1))[0]
+    ctx.cov["observation_exit0_without_draining"] = {
+        "model": "liveness counterexample found with KeepReadEnds=TRUE (as the code), none with KeepReadEnds=FALSE",
+        "argv": t["argv"], "stubs": t["beh"], "real_driver": "still waiting after 3 s (killed)" if obs["rc"] == -999 else "exited rc=%s" % obs["rc"]}
+
+
 def model_check(ctx, cfgname, workers, timeout=2400, heap="4g"):
     cases = []
     r = ctx.tlc("DriverProc", cfgname, workers=workers, timeout=timeout, heap=heap, on_line=lambda p: cases.append(json.loads(p)))
@@ -506,8 +531,9 @@ def run(ctx):
         fa = FlowA(ctx, m, pool)
         n = fa.run(groups, max_classes_per_cfg=2 if ctx.quick else 8)
         fb = FlowB(ctx, m, pool, fa)
-        nb = fb.run(groups, n_traces=60 if ctx.quick else 500)
+        nb = fb.run(groups, n_traces=60 if ctx.quick else 500) if len(ctx.violations) < 6 else 0
         ctx.validated(n + nb)
+        observation_nodrain(ctx, fa)
         th.join()
         if aux_err:
             raise aux_err[0]
@@ -519,6 +545,35 @@ def run(ctx):
             "a stage that exits 0 has read its input to end-of-file (otherwise the driver, which keeps every pipe read end open, can wait forever: recorded as an observation in the notes, outside C18's antecedent)",
             "tools die of SIGTERM (default action)",
         ]
+    finally:
+        if pool:
+            pool.close()
+        m.close()
+
+
+def replay(ctx, path):
+    rec = json.load(open(path))
+    case = rec["case"]
+    if "model_outcomes" not in case:
+        print("this replay file holds a system-call trace (flow B); events:\n" + "\n".join(json.dumps(e) for e in case.get("events", [])))
+        return 1
+    m = drvlib.Machinery()
+    pool = None
+    try:
+        m.build(TRIPLE)
+        pool = drvlib.Pool(m, workers=1)
+        fa = FlowA(ctx, m, pool)
+        g = {"cfg": case["cfg"], "outcomes": {tuple([o[0], tuple(o[1]), o[2]]) for o in case["model_outcomes"]},
+             "required": {tuple([o[0], tuple(o[1]), o[2]]) for o in case["required_outcomes"]}}
+        t, inputs = fa.make_task(g, tuple(case["finished_before_failure"]), case["delay_scale_ms"], case["signal"], case.get("variant", 0), 0)
+        obs = list(pool.map([t], chunksize=1))[0]
+        verdict, what, detail = fa.judge(g, inputs, obs)
+        print(json.dumps({"argv": t["argv"], "stub scripts": t["beh"], "tools missing": t["missing"],
+                          "model allows (exit, files, link started)": sorted(g["outcomes"]), "required": sorted(g["required"]),
+                          "observed": None if obs["rc"] == -999 else observed_outcome(case["cfg"], inputs, obs)[0],
+                          "rc": obs["rc"], "running": obs["running"], "unreaped": obs["unreaped"], "verdict": verdict, "what": what,
+                          "stderr": obs["stderr"]}, indent=1, default=list))
+        return 0 if verdict == "ok" else 1
     finally:
         if pool:
             pool.close()
